@@ -25,6 +25,36 @@ pub fn make_sig(pool: &Pool, signed: &MetadataWrapper, other: &MetadataWrapper, 
     sig
 }
 
+/// a signature of exactly `sig_len` bytes made by the repository's own signer for the scheme (fixture keys), verified by Metablock::verify
+pub fn run_genuine(sc: &Value) -> Value {
+    use in_toto::crypto::{PrivateKey, SignatureScheme};
+    let repo = std::env::var("VERIF_REPO").unwrap_or_else(|_| "/repo".to_string());
+    let scheme = sc["scheme"].as_str().unwrap();
+    let (file, sch) = match (scheme, sc["key_bits"].as_u64().unwrap_or(0)) {
+        ("Ed25519", _) => ("ed25519/ed25519-1.pk8.der", SignatureScheme::Ed25519),
+        ("EcdsaP256Sha256", _) => ("ecdsa/ec.pk8.der", SignatureScheme::EcdsaP256Sha256),
+        ("RsaSsaPssSha256", 4096) => ("rsa/rsa-4096.pk8.der", SignatureScheme::RsaSsaPssSha256),
+        ("RsaSsaPssSha256", _) => ("rsa/rsa-2048.pk8.der", SignatureScheme::RsaSsaPssSha256),
+        ("RsaSsaPssSha512", 4096) => ("rsa/rsa-4096.pk8.der", SignatureScheme::RsaSsaPssSha512),
+        ("RsaSsaPssSha512", _) => ("rsa/rsa-2048.pk8.der", SignatureScheme::RsaSsaPssSha512),
+        _ => return json!({"outcome": "unknown-scheme", "outcomes": []}),
+    };
+    let der = std::fs::read(format!("{}/tests/{}", repo, file)).expect("key fixture");
+    let key = PrivateKey::from_pkcs8(&der, sch).expect("fixture key parses");
+    let want = sc["sig_len"].as_u64().unwrap() as usize;
+    // ECDSA signing is randomised: vary the content until the signer emits a value of the wanted length
+    for n in 0..4_000_000u64 {
+        let content = link(&format!("step{}", n));
+        let mb = Metablock::new(content, &[&key]).unwrap();
+        let v = serde_json::to_value(&mb).unwrap();
+        let len = v["signatures"][0]["sig"].as_str().unwrap().len() / 2;
+        if len != want { continue; }
+        let o = match mb.verify(1, [key.public().clone()].iter()) { Ok(_) => "ok".to_string(), Err(e) => crate::err_name(&e) };
+        return json!({"outcome": o, "outcomes": [o], "tries": n + 1, "sig_len": len});
+    }
+    json!({"outcome": "no-signature-of-that-length", "outcomes": []})
+}
+
 pub fn run(pool: &Pool, sc: &Value) -> Value {
     let nk_unknown = 5usize; // pool key used for "made by a key outside the pool" / unknown label
     let signed = link("step");
